@@ -42,6 +42,19 @@ def run(chk):
     open(chp, "w").write("\n".join(chains) + "\n")
     res = vplib.vh("nr", ["replay", "--in", chp, "--tier", T, "--seed", str(chk.seed), "--n", str(len(chains))], timeout=3300)
     chk.add_replay(res, "refresh_chains")
+    # rollbacks: the state stored at issuance is read back into the credential in use while a prepared commitment sits in the cache
+    pr = vplib.tlc("NonRev", "NonRev.asis.D63.cfg", timeout=300, allow_fail=True)
+    if "ReadsTrue" not in pr.invariant_violated:
+        raise vplib.Machinery("NonRev: without RecommitOnMismatch the invariant ReadsTrue should be violated (vacuity)")
+    gb = vplib.tlc_mc("NonRevGen", "NonRev.rollback.cfg", workers=1, timeout=900)
+    rolls = sorted(set(gb.tagged_raw_json("H")))
+    chk.add_tlc(gb, "NonRevGen", "NonRev.rollback.cfg", "%d histories ending in a proof from a cached commitment after a rollback" % len(rolls))
+    if len(rolls) < 100:
+        raise vplib.Machinery("rollback generator produced only %d histories" % len(rolls))
+    rp = os.path.join(vplib.sub("c11"), "rollbacks.ndjson")
+    open(rp, "w").write("\n".join(rolls) + "\n")
+    res = vplib.vh("nr", ["replay", "--in", rp, "--tier", T, "--seed", str(chk.seed), "--n", str(len(rolls))], timeout=3300)
+    chk.add_replay(res, "rollbacks")
     cp = os.path.join(vplib.sub("c11"), "hist.ndjson")
     open(cp, "w").write("\n".join(hs) + "\n")
     n = 6000 if thorough else len(hs)
